@@ -98,7 +98,7 @@ func (e *Engine) fmtSymVal(verb byte, v Value, t types.Type, depth int) Str {
 			}
 			if u.Info()&types.IsUnsigned != 0 {
 				if i.W < 64 {
-					return e.formatIntSym(Int{W: 64, T: mk("zero_extend", 64, i.T)}).(Str)
+					return e.formatIntSym(Int{W: 64, T: mkZext(64, i.T)}).(Str)
 				}
 				panic(fmtUnsup{"symbolic uint64"})
 			}
